@@ -172,7 +172,7 @@ def gen_cases(ctx):
         for v in variants:
             cases.append({"variant": v, "par": par, "seed": rng.randrange(10 ** 9), "herm": rng.random() < 0.5,
                           "steps": 3, "reset_after": 1})
-    for _ in range(ctx.n(10, 120)):
+    for _ in range(ctx.n(40, 200)):
         for v in variants:
             n = rng.choice([2, 3, 3, 4, 4, 5, 5, 6])
             kind = rng.choice([None, None, "spider", "twig", "bush"])
